@@ -406,7 +406,12 @@ class Models(object):
 
             # Remove extended objects
             if type(self.extended) == np.ndarray:
-                reset = np.any(self.extended[:, :, source.valid > 0], axis=2)
+                # Only points that constrain the fit count: not the ones that
+                # are shown but not fitted (valid = 9), nor limits with zero
+                # confidence
+                limit = (source.valid == 2) | (source.valid == 3)
+                used = (source.valid > 0) & (source.valid != 9) & ~(limit & (source.error == 0))
+                reset = np.any(self.extended[:, :, used], axis=2)
                 ch_best[reset] = np.inf
 
             # Find best-fit distance in each case
